@@ -1,15 +1,12 @@
 import Eliot.Conc.Handover
-import Eliot.Generated.Handover
 /-! C12, concurrent clause "no message logged by any thread is lost across the hand-over":
-**false on the pinned tree**.  Witness schedules, by evaluation of the model compiled from the
-regenerated skeleton. -/
+**false for the skeleton of the pinned tree** (`pinnedSkel`, i.e. before the repair that /repo now
+contains).  Witness schedules, by evaluation of the model compiled from that skeleton.  These are
+theorems about the OLD skeleton only; the repaired one is treated in `Proofs/HandoverFix.lean`. -/
 namespace Eliot.Conc.Handover
 
-/-- generated obligation: the source still has the shape the model (and the witnesses) are about -/
-example : Eliot.Generated.handover = assumed := by decide
-
 /-- one logger logging message 7, one destination (id 0) added by the first `add`, nothing buffered before -/
-def raceInit : State := init Eliot.Generated.handover [] (fun i => if i = 0 then [7] else []) [0]
+def raceInit : State := init pinnedSkel [] (fun i => if i = 0 then [7] else []) [0]
 
 /-- The full-strength clause would be
 `∀ sched, finished (run raceInit sched) 1 = true → lostB (run raceInit sched) [7] = false`.
@@ -35,7 +32,7 @@ theorem handover_race_witness_empty_list :
 
 /-- with messages already buffered the re-send loop runs, and the late append still comes too late -/
 theorem handover_race_witness_prebuffered :
-    ∃ sched, let s := run (init Eliot.Generated.handover [1, 2] (fun i => if i = 0 then [7] else []) [0]) sched
+    ∃ sched, let s := run (init pinnedSkel [1, 2] (fun i => if i = 0 then [7] else []) [0]) sched
       finished s 1 = true ∧ lostB s [7] = true ∧ s.delivered 0 = [1, 2] :=
   ⟨[.logger 0, .logger 0] ++ List.replicate 30 Tid.adder ++ [.logger 0, .logger 0], by decide⟩
 
@@ -44,7 +41,9 @@ example : lostB (run raceInit ([.logger 0, .logger 0, .logger 0, .logger 0] ++ L
 example : lostB (run raceInit (List.replicate 7 Tid.adder ++ [.logger 0, .logger 0, .logger 0, .logger 0])) [7] = false := by decide
 example : finished (run raceInit ([.logger 0, .logger 0, .logger 0, .logger 0] ++ List.replicate 20 Tid.adder)) 1 = true := by decide
 /-- a message logged while the re-send loop runs can overtake older buffered messages -/
-example : (run (init Eliot.Generated.handover [1, 2] (fun i => if i = 0 then [7] else []) [0])
-    (List.replicate 14 Tid.adder ++ List.replicate 4 (Tid.logger 0) ++ List.replicate 20 Tid.adder)).delivered 0 = [1, 7, 2] := by decide
+theorem handover_overtake_witness :
+    ∃ sched, let s := run (init pinnedSkel [1, 2] (fun i => if i = 0 then [7] else []) [0]) sched
+      finished s 1 = true ∧ s.delivered 0 = [1, 7, 2] :=
+  ⟨List.replicate 14 Tid.adder ++ List.replicate 4 (Tid.logger 0) ++ List.replicate 20 Tid.adder, by decide⟩
 
 end Eliot.Conc.Handover
